@@ -778,6 +778,14 @@ def run(res, tier):
     import c05
     for kcls in ("FUnifKernel", "FRotationKernel"):
         c05.operator_static_locals(facts, res, kcls, "C10.7.shifted-copies-private")
+    res.rule("C10.8 the real periodic tree alone covers the images -1 .. 1 exactly once: model built from the periodic side of the list builders (window, parent wrap and child shift, too-close threshold, empty-below level) and transfers from TbfDefaultLastLevelPeriodic; every unwrapped leaf cell of the 3^Dim images reaches every target exactly once, nothing outside does (Dim 1 heights 2..6, Dim 2 heights 2..4) - the premise of C10.6")
+    import decomp
+    gl = [g_ for g_ in facts.globals if g_["name"] == "TbfDefaultLastLevelPeriodic" and g_.get("c")]
+    lit = [z for z in walk(gl[0]["c"][0]) if z.get("k") == "IntegerLiteral"] if len(gl) == 1 else []
+    if len(lit) != 1:
+        raise AnalysisBroken("TbfDefaultLastLevelPeriodic not found as an integer constant")
+    npairs = decomp.check_periodic(facts, res, "C10.8.periodic-real-tree", "TbfMortonSpaceIndex", int(lit[0]["val"]))
+    res.floor("C10.8.periodic-real-tree", npairs, 1000, "(target, unwrapped source) pairs")
     morton_nb = morton_interactions(facts)
     res.instance("C10.2.window-extent", "getNbInteractionsPerCell", "src/spacial/tbfmortonspaceindex.hpp", "%d^Dim - %d^Dim" % morton_nb)
     summ = {}
